@@ -50,6 +50,8 @@ func init() {
 			}},
 		Rule{ID: "C18.j", Explain: "decoding into a value that was used before leaves nothing of its previous content: in Update.uncompress and EventList.uncompress every exported field of the receiver that the function assigns at all is assigned on every path to its return (a field that is only replaced when the message carries it keeps the events of the previous message).",
 			Run: func(P *Program, R *Report) { decodersResetRule(P, R, "C18.j") }},
+		Rule{ID: "C18.l", Explain: "no decoder or encoder drops a failure: in the Marshal*/Unmarshal*/compress/uncompress functions of the module and the key-file loaders and writers of gabikeys an error of a step is looked at (same rule as C08.g: the error a call returns has a use - a nil test or a return - before it is overwritten, shadowed or left behind).",
+			Run: func(P *Program, R *Report) { errorResultsUsedRule(P, R, "C18.l", func(fn *ssa.Function) bool { n := fn.Name(); return strings.Contains(n, "arshal") || strings.Contains(n, "ompress") || inFiles(P, "gabikeys/marshaling.go", "gabikeys/keys.go", "signed/")(fn) }, nil, 15) }},
 	)
 }
 
